@@ -39,9 +39,10 @@ class OrchWorld(AgentWorld):
             self.agents[name] = a
         self.phase_steps = {}
 
-    def boot_all(self, order=None, lazy=False):
-        """lazy: the agents' threads "start" (Agent._on_start) at arbitrary moments of the run, as schedulable steps"""
-        names = [n for n in self.agents if n != "orchestrator"]
+    def boot_all(self, order=None, lazy=False, hold=()):
+        """lazy: the agents' threads "start" (Agent._on_start) at arbitrary moments of the run, as schedulable steps;
+        hold: agents that are not started here at all (solve(late=...) starts them)"""
+        names = [n for n in self.agents if n != "orchestrator" and n not in hold]
         if order:
             order.shuffle(names)
         self.unbooted = []
@@ -70,9 +71,13 @@ class OrchWorld(AgentWorld):
     def mgt(self, method, arg=None):
         self.orch._mgt_method(method, arg)
 
-    def solve(self):
-        """deploy_computations() + run(), the way commands/solve.py drives the orchestrator"""
+    def solve(self, late=()):
+        """deploy_computations() + run(), the way commands/solve.py drives the orchestrator.
+        late: agents (hosting nothing) whose thread only starts after the orchestrator has handled the run request"""
         m = self.orch.mgt
+        for n in late:
+            if n in getattr(self, "unbooted", []):
+                self.unbooted.remove(n)
         if not self.until(lambda: m.all_registered.is_set(), "registration"):
             return "not all agents registered"
         self.mgt("_orchestrator_deploy_computations")
@@ -80,6 +85,11 @@ class OrchWorld(AgentWorld):
             return "deployment never completed"
         self.orch.repair_only = False
         self.mgt("_orchestrator_run_computations")
+        if late:
+            self.until(lambda: any(s == "running" for s in m._agts_state.values()), "run request handled", max_steps=2000)
+            for n in late:
+                if n not in self.booted:
+                    self.boot(n, start_directory=False)
         if not self.until(lambda: m._all_agt_stopped.is_set(), "run"):
             return "quiescent before all agents stopped"
         return None
